@@ -227,7 +227,7 @@ pub fn run(ctx: &Ctx) -> Report {
     );
     rep.add(r);
     if !rep.has_violation() {
-        let r = run_part(ctx, "random", ctx.cases(100_000, 3_000_000), strategy, check, &[]);
+        let r = run_part(ctx, "random", ctx.cases(1_000_000, 30_000_000), strategy, check, &[]);
         rep.add(r);
     }
     rep
